@@ -22,6 +22,7 @@ struct G
   long long R;
   bool nd;
   IV lo, hi;
+  std::vector<std::unique_ptr<Map>> oldMaps;
   std::unique_ptr<Map> map;
   std::unique_ptr<RayCasting<S, DIM>> ray;
   IV origin;
@@ -41,14 +42,22 @@ struct G
   G(double unit, long long r, bool ndflag, const IV & l, const IV & h, bool symmetric) : u(unit), R(r), nd(ndflag), lo(l), hi(h)
   {
     S res = (S)((double)R * u);
-    if (symmetric) {map.reset(new Map((S)((double)h[0] * u), res));} else {
-      map.reset(new Map(Interval<S, DIM>(pt(lo), pt(hi)), res));
+    // the mapping under test is built directly, or is a copy (copy construction / default construction + copy assignment) of a
+    // mapping which is afterwards re-assigned to a grid with the same cell counts elsewhere: a copy owns its tables
+    static size_t variant = 0;
+    const size_t how = variant++ % 4;
+    std::unique_ptr<Map> src(symmetric ? new Map((S)((double)h[0] * u), res) : new Map(Interval<S, DIM>(pt(lo), pt(hi)), res));
+    if (how == 0 || how == 3) {map = std::move(src);} else {
+      if (how == 1) {map.reset(new Map(*src));} else {map.reset(new Map()); *map = *src;}
+      IV l2 = lo, h2 = hi;
+      for (size_t a = 0; a < DIM; ++a) {long long shift = 7 * R * (hi[a] + 7 * R <= 1000 * R ? 1 : -1); l2[a] += shift; h2[a] += shift;}
+      *src = Map(Interval<S, DIM>(pt(l2), pt(h2)), res);
+      oldMaps.push_back(std::move(src));
     }
     if (((long long)(lo[0] + hi[0]) & 1) == 0) {ray.reset(new RayCasting<S, DIM>(map.get()));}
     else {ray.reset(new RayCasting<S, DIM>()); ray->setGridIndexMapping(map.get());}          // both construction paths
   }
   // point the same caster at another grid (same unit, other resolution / extent); the old mapping stays alive
-  std::vector<std::unique_ptr<Map>> oldMaps;
   std::string regrid(long long newR, const IV & l, const IV & h)
   {
     oldMaps.push_back(std::move(map));
@@ -217,6 +226,89 @@ static void randomExec(vh::Rng & r, const std::string & mode, vh::Out & out)
   }
 }
 
+// Generic (non-lattice) grids: real-valued bounds in [-1000, 1000], real-valued resolutions in [1e-3, 10], at most 1e7 cells - among
+// them grids with one axis of more than a million cells.  The relations of C13 are measured as residuals in units of
+// eps * max(1, largest |bound|) (what one rounding of a coordinate of that size costs); the specification bounds them (GenericOK).
+template<class S, size_t DIM>
+static void genericIndex(vh::Rng & r, vh::Out & out)
+{
+  using Map = GridIndexMapping<S, DIM>;
+  using P = typename Map::PointType;
+  using CI = typename Map::CellIndexes;
+  auto uni = [&](double a, double b) {return a + (b - a) * ((double)r.range(0, 1000000000) / 1e9);};
+  S res = (S)(r.coin(1, 3) ? r.pick(std::vector<double>(DECIMAL, DECIMAL + 16)) : std::pow(10.0, uni(-3, 1)));
+  const bool sym = r.coin(1, 4), longAxis = !sym && r.coin(1, 3);
+  // cells allowed per axis so that the whole grid stays below 1e7 cells
+  double perAxis = std::pow(8.0e6, 1.0 / DIM);
+  P lo, hi;
+  for (size_t a = 0; a < DIM; ++a) {
+    double maxLen = std::min(2000.0, (double)res * ((longAxis ? (a == 0 ? 2.4e6 : 1.2) : perAxis) - 2));
+    double len = r.coin(1, 3) ? maxLen : uni(0, maxLen);
+    double l = uni(-1000, 1000 - len);
+    if (r.coin(1, 4)) {l = std::floor(l / (double)res) * (double)res; if (l < -1000) {l += (double)res;}}     // a bound that is (nearly) a multiple of the resolution
+    lo[a] = (S)l; hi[a] = (S)std::min(1000.0, l + len);
+    if (hi[a] < lo[a]) {hi[a] = lo[a];}
+  }
+  std::unique_ptr<Map> map;
+  if (sym) {
+    S range = (S)std::min({1000.0, (double)res * (perAxis / 2 - 2), uni(0, 1000)});
+    for (size_t a = 0; a < DIM; ++a) {lo[a] = -range; hi[a] = range;}
+    map.reset(new Map(range, res));
+  } else {map.reset(new Map(Interval<S, DIM>(lo, hi), res));}
+  const CI nc = map->getNumberOfCellsAlongAxes();
+  double scale = 1; for (size_t a = 0; a < DIM; ++a) {scale = std::max({scale, std::fabs((double)lo[a]), std::fabs((double)hi[a])});}
+  const double unit = (double)std::numeric_limits<S>::epsilon() * scale;
+  auto inUnits = [&](double x) {double v = x <= 0 ? 0 : std::ceil(x / unit); return v < 1e9 ? (long long)v : 1000000000LL;};
+  bool inRange = true, back = true, tabSame = true;
+  double half = 0, spacing = 0, coverLo = 0, coverHi = 0;
+  long long total = 1; for (size_t a = 0; a < DIM; ++a) {total *= (long long)nc[a];}
+  // points of the closed extent: corners, bounds, cell-border-like values, random
+  for (int k = 0; k < 1500; ++k) {
+    P p;
+    for (size_t a = 0; a < DIM; ++a) {
+      int st = (int)r.range(0, 6);
+      double x = st == 0 ? (double)lo[a] : st == 1 ? (double)hi[a] : uni((double)lo[a], (double)hi[a]);
+      if (st == 2) {x = std::nearbyint(x / (double)res) * (double)res;}                      // near a multiple of the resolution
+      if (st == 3) {x = (std::nearbyint(x / (double)res) + 0.5) * (double)res;}                // near a half-multiple
+      p[a] = (S)x; if (p[a] < lo[a]) {p[a] = lo[a];} if (p[a] > hi[a]) {p[a] = hi[a];}
+    }
+    CI idx = map->computeCellIndexes(p);
+    bool ok = true; for (size_t a = 0; a < DIM; ++a) {ok = ok && idx[a] < nc[a];}
+    inRange = inRange && ok;
+    if (ok) {
+      P c = map->computeCellCenterPosition(idx);
+      for (size_t a = 0; a < DIM; ++a) {half = std::max(half, std::fabs((double)p[a] - (double)c[a]) - (double)res / 2);}
+    }
+  }
+  // centres: map back, spacing, both accessors, coverage of the bounds
+  for (size_t a = 0; a < DIM; ++a) {
+    const size_t n = nc[a];
+    if (n == 0 || map->getCellCentersPositionAlong(a).size() != n) {back = false; continue;}
+    std::vector<size_t> ks;
+    if (n <= 3000) {for (size_t k = 0; k < n; ++k) {ks.push_back(k);}} else {
+      for (size_t k = 0; k < 400; ++k) {ks.push_back(k); ks.push_back(n - 1 - k);}
+      for (int k = 0; k < 2000; ++k) {ks.push_back((size_t)r.range(0, (long long)n - 1));}
+    }
+    for (size_t k : ks) {
+      CI idx = CI::Zero(); idx[a] = k;
+      P c = map->computeCellCenterPosition(idx);
+      if (c[a] != map->getCellCentersPositionAlong(a)[k]) {tabSame = false;}
+      CI b = map->computeCellIndexes(c);
+      if (b[a] != k) {back = false;}
+      if (k + 1 < n) {
+        CI nx = idx; nx[a] = k + 1;
+        spacing = std::max(spacing, std::fabs(((double)map->computeCellCenterPosition(nx)[a] - (double)c[a]) - (double)res));
+      }
+    }
+    CI z = CI::Zero(); double c0 = (double)map->computeCellCenterPosition(z)[a];
+    z[a] = n - 1; double cl = (double)map->computeCellCenterPosition(z)[a];
+    coverLo = std::max({coverLo, c0 - (double)res / 2 - (double)lo[a], (double)lo[a] - (double)res - (c0 + (double)res / 2)});
+    coverHi = std::max({coverHi, (double)hi[a] - (cl + (double)res / 2), cl - (double)res / 2 - ((double)hi[a] + (double)res)});
+  }
+  out.put(vh::Ev("generic").i("dim", DIM).i("float", sizeof(S) == 4).b("sym", sym).i("cells", total).b("inRange", inRange).b("back", back)
+    .b("tabSame", tabSame).vec("res", IV{inUnits(half), inUnits(spacing), inUnits(coverLo), inUnits(coverHi)}));
+}
+
 template<class S, size_t DIM>
 static void exhaustive(long long R, long long lo, long long hi, vh::Out & out)
 {
@@ -242,6 +334,22 @@ int main(int argc, char ** argv)
     vh::Rng r(std::strtoull(argv[2], nullptr, 10));
     int nexec = std::atoi(argv[3]);
     vh::Out out(argv[5]);
+    if (std::string(argv[4]) == "generic") {
+      for (int i = 0; i < nexec; ++i) {
+        if (i % 40 == 0) {
+          out.put(vh::Ev("Reset").i("dim", 2).i("R", 2).vec("lo", IV{0, 0}).vec("hi", IV{2, 2}).b("nd", false).vec("ncells", IV{2, 2}).vec("c0", IV{0, 0})
+            .b("exact", true).b("sym", false).i("float", 0));
+        }
+        switch (i % 4) {
+          case 0: genericIndex<double, 2>(r, out); break;
+          case 1: genericIndex<float, 2>(r, out); break;
+          case 2: genericIndex<double, 3>(r, out); break;
+          default: genericIndex<float, 3>(r, out);
+        }
+      }
+      std::printf("%lld\n", out.lines);
+      return 0;
+    }
     for (int i = 0; i < nexec; ++i) {
       switch (r.range(0, 3)) {
         case 0: randomExec<double, 2>(r, argv[4], out); break;
